@@ -360,6 +360,10 @@ func (g *progGen) intSpec(depth int) *GenSpec {
 	case 3:
 		return &GenSpec{K: "uint8"}
 	case 4:
+		if g.pf.CustomFail > 0 && depth < 2 && t.Chance("gen.filter_custom", 40) {
+			// a Custom generator function that can signal a failure, whose value an enclosing Filter may reject
+			return &GenSpec{K: "filter_even", Sub: &GenSpec{K: "custom", Cust: g.customSpec()}}
+		}
 		if t.Chance("gen.filter_rare", 35) {
 			return &GenSpec{K: "filter_rare", Sub: g.intSpec(depth + 1)}
 		}
@@ -440,6 +444,9 @@ func (g *progGen) genSpec(depth int) *GenSpec {
 	case 6:
 		return &GenSpec{K: "perm", A: t.Int("gen.perm", 0, 6)}
 	case 7:
+		if t.Chance("gen.makemap", 20) {
+			return &GenSpec{K: "makemap"}
+		}
 		if t.Chance("gen.mapbool", 50) {
 			return &GenSpec{K: "mapbool", Sub: g.intSpec(depth + 1)}
 		}
@@ -563,10 +570,14 @@ func (g *progGen) cleanupStmt(vars []int, depth int) *Stmt {
 	return s
 }
 
+// action names: plain, differing only in letter case, and awkward ones (the order of actions must be a function of the names)
+var actionNames = [][]string{{"A", "B", "C"}, {"get", "Get", "GET"}, {"a b", "A-b", "Ä"}}
+
 func (g *progGen) repeatStmt(vars []int, want int) *Stmt {
 	t := g.t
 	s := &Stmt{K: SRepeat}
 	na := t.Int("rep.nact", 1, 3)
+	nameSet := t.Weighted("rep.names", 5, 2, 1)
 	for i := 0; i < na; i++ {
 		avars := append([]int(nil), vars...)
 		var body []*Stmt
@@ -574,7 +585,7 @@ func (g *progGen) repeatStmt(vars []int, want int) *Stmt {
 			body = append(body, &Stmt{K: SIf, Cond: g.cond(avars), Body: []*Stmt{{K: SSkip, SKind: t.Pick("skip.kind", 3)}}})
 		}
 		body = append(body, g.body(t.Int("rep.alen", 1, 3), &avars, 2, want, "action")...)
-		s.Acts = append(s.Acts, Action{Name: string(rune('A' + i)), Body: body})
+		s.Acts = append(s.Acts, Action{Name: actionNames[nameSet][i], Body: body})
 	}
 	if t.Chance("rep.inv", 60) {
 		s.HasInv = true
